@@ -39,7 +39,12 @@ RULES["C19"] = (
     "factors (scale +-[0.1,10], shear [-2,2], canonical and non-canonical angles incl. exact gimbal lock), point arrays "
     "(n>=0, 2-D/3-D) x matrix classes incl. near-identity on both sides of the documented 1e-8 shortcut x translate, "
     "planar matrices, rigid / stretched matrices (stretch direction axis-aligned, diagonal, random), vector pairs "
-    "(generic, parallel, antiparallel, tiny and pi-tiny angle) and planes. Round trips are compared as matrices. "
+    "(generic, parallel, antiparallel, tiny and pi-tiny angle) and planes. Wherever a scale factor or a length is a "
+    "legal input (compose/decompose, scale_matrix/scale_from_matrix, scale_and_translate, planar scale, rescaled "
+    "matrices for transform_points / transform_around, rotation points, plane origins) it ranges over every decade: "
+    "scale factors 1e-9..1e9 (uniform and per-axis with ratio <= 100, both signs), lengths 1e-6..1e6, and every "
+    "comparison is relative to the magnitude of the block it concerns. Every call is made with the caller's ndarrays "
+    "watched: arguments must come back bit-identical and results must not alias them. Round trips are compared as matrices. "
     "Non-trivial: the rotation / transform of the case is not the identity (angle > 1e-13 or non-identity matrix)."
 )
 ASSUMPTIONS["C19"] = [
@@ -49,6 +54,7 @@ ASSUMPTIONS["C19"] = [
     "near singular branches parameter noise/distance is tolerated up to 1e-7, see module docstring",
     "is_rigid is not asserted on reflections (orthogonal, det -1); fix_rigid is checked for (4,4) and (3,3) ndarray input",
     "transform_points is checked for affine matrices (last row 0..0 1); inside the documented 1e-8 identity shortcut both the unchanged points and the exact product are accepted",
+    "scale_from_matrix: a uniform scaling stores the factor itself (relative precision expected), a directional one stores I+(f-1)dd^T (absolute precision eps*max(1,|f|) expected); the recovered origin may be any point of the fixed set",
     "decompose_matrix is checked for perspective-free matrices; factor equality only for canonical factors (scales of one sign, |aj| < pi/2, ai, ak in (-pi, pi])",
 ]
 
